@@ -28,6 +28,15 @@
 // the tracked script, plus canonical / full lists under a foreign-key script and under the same keys with a
 // lower threshold.
 //
+// ONT HISTORIES through the real handlers with complete deposits (old-style ONT side chain, RFC-6962 proofs built by
+// the harness): already stored ∈ {nothing, genuine message at H via syncCrossChainMsg, genuine at H via an earlier
+// deposit} × submitted message signers ∈ {unsigned, duplicate, outsiders, below threshold, nonsigners-then-outsiders,
+// full quorum} × claimed height ∈ {H,H+1} × entrance Height ∈ {H,H+1,H+2} × message root ∈ {A,B} × proof under
+// root ∈ {A,B}. Oracle: deposit accepted ⇒ the root the proof verifies under belongs to a validly signed message
+// (the stored genuine one, or the submitted one if it carries enough distinct tracked signatures).
+// NEO / NEO N3 handlers keep no message records (every call re-verifies, SyncCrossChainMsg is a no-op): no history
+// dimension exists there.
+//
 // Oracle (by construction of the input, no code shared with the implementation):
 //
 //	accepted ⇒ script/keys belong to the tracked set ∧ |{distinct tracked members with a valid signature}| ≥ required
@@ -36,6 +45,7 @@
 package main
 
 import (
+	"crypto/sha256"
 	"fmt"
 	"sort"
 	"strings"
@@ -43,6 +53,7 @@ import (
 
 	"github.com/polynetwork/poly/common"
 	_ "github.com/polynetwork/poly/native/service"
+	ccmcom "github.com/polynetwork/poly/native/service/cross_chain_manager/common"
 	"github.com/polynetwork/poly/native/service/header_sync/neo"
 	"github.com/polynetwork/poly/native/service/header_sync/neo3"
 	"github.com/polynetwork/poly/native/service/header_sync/neo3legacy"
@@ -507,6 +518,152 @@ func ontPart() {
 }
 
 // ---------------------------------------------------------------------------------------------
+// ONT histories: what is already stored for (chain, height) × message variant × claimed height × entrance height × root
+
+func leafHash(v []byte) [32]byte { return sha256.Sum256(append([]byte{0}, v...)) }
+func nodeHash(l, rr [32]byte) [32]byte {
+	return sha256.Sum256(append(append([]byte{1}, l[:]...), rr[:]...))
+}
+
+// ontProof is the wire form merkle.MerkleProve reads: varbytes(value) ++ (flag, sibling)*; flag 0 = sibling is LEFT.
+func ontProof(value []byte, flag byte, sibling *[32]byte) []byte {
+	sink := common.NewZeroCopySink(nil)
+	sink.WriteVarBytes(value)
+	if sibling != nil {
+		sink.WriteByte(flag)
+		sink.WriteBytes(sibling[:])
+	}
+	return sink.Bytes()
+}
+
+func ontHistoryPart() {
+	const (
+		chain = uint64(160)
+		dst   = uint64(161)
+		H     = uint32(5)
+	)
+	P := polyenv.KeysFrom(140, 4)
+	F := polyenv.KeysFrom(196, 2)
+	name := map[string]string{F[0].PubHex: "outsider0", F[1].PubHex: "outsider1"}
+	tr := map[string]bool{}
+	for i, k := range P {
+		name[k.PubHex] = fmt.Sprintf("p%d", i)
+		tr[k.PubHex] = true
+	}
+	val := func(ccid byte) []byte {
+		m := &ccmcom.MakeTxParam{TxHash: []byte{0xe0, ccid}, CrossChainID: []byte{ccid}, FromContractAddress: []byte{0xf0}, ToChainID: dst,
+			ToContractAddress: make([]byte, 20), Method: "unlock", Args: []byte{1, 2, 3}}
+		sink := common.NewZeroCopySink(nil)
+		m.Serialization(sink)
+		return sink.Bytes()
+	}
+	v0, v1, vf := val(1), val(2), val(3)
+	l0, l1 := leafHash(v0), leafHash(v1)
+	rootA := nodeHash(l0, l1) // the root the validators signed (commits to v0 and v1)
+	rootB := leafHash(vf)     // another root (commits to vf only)
+	proof0 := ontProof(v0, 1, &l1)
+	proofs := map[string][]byte{"A": ontProof(v1, 0, &l0), "B": ontProof(vf, 0, nil)}
+	ccidOf := map[string][]byte{"A": {2}, "B": {3}}
+	roots := map[string][32]byte{"A": rootA, "B": rootB}
+	doneKey := func(ccid []byte) string {
+		return polyenv.StorageKey(utils.ConcatKey(utils.CrossChainManagerContractAddress, []byte("doneTx"), utils.GetUint64Bytes(chain), ccid))
+	}
+	w := baseWorld()
+	must(on.RegisterSideChain(w, vals, chain, utils.ONT_ROUTER, "onth", nil, nil), "register ont (old-style, empty CCMC)")
+	must(on.RegisterSideChain(w, vals, dst, utils.VOTE_ROUTER, "dst", []byte{2}, nil), "register target chain")
+	mustOK(w.Exec(on.GenesisTx(vals, chain, on.OntHeader(0, P, 1, nil)), 5, 500), "onth genesis")
+	genuine, _, _ := on.OntCrossMsgLayout(H, rootA, P[:2], signedBy(P[:2]...))
+	states := map[string]polyenv.Dump{"nothing-stored": w.Dump()}
+	ws := polyenv.NewWorldFrom(states["nothing-stored"])
+	mustOK(ws.Exec(on.CrossMsgTx(chain, genuine), 6, 600), "onth sync genuine message")
+	states["genuine-at-H-via-syncCrossChainMsg"] = ws.Dump()
+	ws.Close()
+	wd := polyenv.NewWorldFrom(states["nothing-stored"])
+	res0 := wd.Exec(on.ImportTx(chain, H, proof0, genuine), 6, 600)
+	mustOK(res0, "onth genuine deposit of v0")
+	states["genuine-at-H-via-earlier-deposit"] = wd.Dump()
+	if wd.Dump().Map()[doneKey([]byte{1})] == "" {
+		r.HarnessError("onth: genuine deposit did not mark v0 done")
+	}
+	wd.Close()
+	w.Close()
+	type sv struct {
+		name string
+		keys []*polyenv.Acct
+		sigs []on.OntSig
+	}
+	variants := []sv{
+		{"unsigned", nil, nil},
+		{"duplicate-signer", []*polyenv.Acct{P[2], P[2]}, signedBy(P[2], P[2])},
+		{"outsiders", F, signedBy(F...)},
+		{"below-threshold", P[2:3], signedBy(P[2])},
+		{"nonsigners-then-outsiders", cat(P[:2], F), signedBy(F...)},
+		{"full-quorum", P[2:4], signedBy(P[2], P[3])},
+	}
+	type hc struct {
+		state, rootName, proofName string
+		v                          sv
+		claimed, entrance          uint32
+	}
+	var cases []hc
+	var stNames []string
+	for k := range states {
+		stNames = append(stNames, k)
+	}
+	sort.Strings(stNames)
+	for _, st := range stNames {
+		for _, v := range variants {
+			for _, claimed := range []uint32{H, H + 1} {
+				for _, entrance := range []uint32{H, H + 1, H + 2} {
+					for _, rn := range []string{"A", "B"} {
+						for _, pn := range []string{"A", "B"} {
+							cases = append(cases, hc{st, rn, pn, v, claimed, entrance})
+						}
+					}
+				}
+			}
+		}
+	}
+	parallel(len(cases), func(i int, s *hsenv.Sim) {
+		c := cases[i]
+		raw, _, _ := on.OntCrossMsgLayout(c.claimed, roots[c.rootName], c.v.keys, c.v.sigs)
+		dv := distinctValid(tr, c.v.sigs)
+		submittedValid := dv*3 >= len(tr)
+		s.Load(states[c.state])
+		res := s.Exec(on.ImportTx(chain, c.entrance, proofs[c.proofName], raw), 10, 1000)
+		r.Eval()
+		accepted := res.OK && s.Raw(doneKey(ccidOf[c.proofName])) != ""
+		// the proof verifies under exactly one root (c.proofName); that root must belong to a validly signed message:
+		// the stored genuine one (root A) or the submitted one if IT is validly signed
+		justified := (c.proofName == "A" && c.state != "nothing-stored") || (c.rootName == c.proofName && submittedValid)
+		cls := "reject"
+		if accepted {
+			cls = "accept"
+		}
+		r.Class("ont-history:" + cls)
+		r.Class("ont:" + cls)
+		r.Class(cls)
+		count("ont/history/" + cls)
+		r.Case(fmt.Sprintf("ont-history/%s/%s/claimed=H+%d/entrance=H+%d/msgroot=%s/proofroot=%s/%s", c.state, c.v.name, c.claimed-H, c.entrance-H, c.rootName, c.proofName, cls))
+		detail := map[string]any{"router": "ont", "path": "cross_chain_manager.ImportOuterTransfer (full deposit with a matching merkle proof)",
+			"already_stored": c.state, "submitted_message_signers": label(ontCase{keys: c.v.keys, sigs: c.v.sigs}, name), "submitted_message_claims_height": c.claimed,
+			"entrance_height_param": c.entrance, "genuine_height": H, "submitted_message_root": c.rootName, "proof_verifies_under_root": c.proofName,
+			"distinct_valid_tracked_signers_of_submitted": dv, "required": 2, "tracked_set_size": len(tr), "tx_err": fmt.Sprint(res.Err),
+			"raw_msg_hex": fmt.Sprintf("%x", raw), "proof_hex": fmt.Sprintf("%x", proofs[c.proofName])}
+		if accepted && !justified {
+			violation("ont:MakeDepositProposal:deposit-accepted-against-states-root-of-unverified-message:"+c.v.name, len(c.v.keys)*1000+int(c.entrance), detail)
+		}
+		if accepted && len(c.v.keys) < 2 {
+			r.Sample(map[string]any{"history": c.state, "signers": c.v.name, "claimed": c.claimed, "entrance": c.entrance, "msgroot": c.rootName, "proofroot": c.proofName, "outcome": cls})
+		}
+		if !accepted && c.v.name == "full-quorum" && c.rootName == c.proofName && c.state == "nothing-stored" && c.claimed == c.entrance {
+			canonicalRejected("ont history: honest deposit rejected (%s claimed=%d entrance=%d root=%s): %v", c.state, c.claimed, c.entrance, c.rootName, res.Err)
+		}
+	})
+	r.Note("ont_history_cases", len(cases))
+}
+
+// ---------------------------------------------------------------------------------------------
 // NEO family: generic enumeration of invocation lists
 
 // seqs returns all sequences of length <= maxLen over the alphabet {member 0..n-1, outsider, bad(member 0)}.
@@ -785,11 +942,12 @@ func neo3Part(legacy bool) {
 
 func main() {
 	r = ev.Start("C24", "exploration")
-	r.Require("accept", "reject", "ont:accept", "ont:reject", "neo:accept", "neo:reject", "neo3:accept", "neo3:reject", "neo3legacy:accept", "neo3legacy:reject")
+	r.Require("accept", "reject", "ont:accept", "ont:reject", "ont-history:accept", "ont-history:reject", "neo:accept", "neo:reject", "neo3:accept", "neo3:reject", "neo3legacy:accept", "neo3legacy:reject")
 	vals = polyenv.Keys(4)
 	polyenv.Setup(0, vals)
 	polyenv.InstallHeightLedger()
 	ontPart()
+	ontHistoryPart()
 	neoPart()
 	neo3Part(false)
 	neo3Part(true)
